@@ -44,6 +44,10 @@ pub struct Cfg {
     pub dense: bool,
     /// Largest day offset in "normal" mode.
     pub max_day_offset: i64,
+    /// Single dates (`Jan 5 +200 days`) may carry day offsets up to this value (0 = no more than
+    /// `max_day_offset`): the date may then fall in the year after / before the one it is
+    /// defined on.
+    pub single_date_max_offset: i64,
     /// Percentage of rules restricted to the constructs the normaliser understands (plain
     /// weekday/month/week/year ranges without steps, fixed spans inside the day).
     pub canonical_pct: u32,
@@ -67,6 +71,7 @@ impl Default for Cfg {
             events: true,
             dense: false,
             max_day_offset: 10,
+            single_date_max_offset: 0,
             canonical_pct: 0,
             canonical: false,
             force_bounded_year: false,
@@ -618,6 +623,28 @@ fn gen_date(ch: &mut Choices, cfg: &Cfg, out: &mut String, with_year: bool) -> D
     }
 }
 
+/// A date of the last twelve days of December or the first ten of January.
+fn gen_year_edge_date(ch: &mut Choices, cfg: &Cfg, out: &mut String, with_year: bool, very_end: Option<bool>) -> Date {
+    let year = if with_year { Some(gen_year(ch, cfg)) } else { None };
+    if let Some(y) = year {
+        out.push_str(&y.to_string());
+        if ch.chance(75) {
+            out.push(' ');
+        }
+    }
+    let (month, day) = match very_end {
+        // the last six days of December / the first five of January
+        Some(true) => (Month::December, 26 + ch.draw(6) as u8),
+        Some(false) => (Month::January, 1 + ch.draw(5) as u8),
+        None if ch.chance(50) => (Month::December, 20 + ch.draw(12) as u8),
+        None => (Month::January, 1 + ch.draw(10) as u8),
+    };
+    out.push_str(month_str(month));
+    out.push(' ');
+    out.push_str(&day.to_string());
+    Date::Fixed { year, month, day }
+}
+
 /// `+Su`, `-Su`, ` +1 day`, `+Su -1 day`.
 fn gen_date_offset(ch: &mut Choices, cfg: &Cfg, out: &mut String) -> DateOffset {
     match ch.weighted(&[45, 40, 15]) {
@@ -644,8 +671,44 @@ fn gen_wday_offset(ch: &mut Choices, out: &mut String) -> WeekDayOffset {
 }
 
 fn gen_monthday_range(ch: &mut Choices, cfg: &Cfg, out: &mut String) -> MonthdayRange {
-    let w = if cfg.canonical { [22, 16, 0, 0, 0, 0] } else { [22, 16, 16, 8, 28, 10] };
+    let w = if cfg.canonical { [22, 16, 0, 0, 0, 0, 0] } else { [22, 16, 16, 8, 28, 10, 9] };
     match ch.weighted(&w) {
+        // range hugging the turn of the year, where offsets carry an end into the adjacent year
+        6 => {
+            let with_year = ch.chance(40);
+            let end_year = if with_year { ch.chance(30) } else { ch.chance(4) };
+            // "crossing": a start in the last days of December pushed forward, or an end in the
+            // first days of January pulled backward, possibly past the other end
+            let crossing = ch.weighted(&[65, 18, 17]);
+            let carried = |ch: &mut Choices, out: &mut String, forward: bool| -> DateOffset {
+                if ch.chance(50) {
+                    let w = ch.pick(&WDAYS);
+                    out.push(if forward { '+' } else { '-' });
+                    out.push_str(wday_str(w));
+                    DateOffset { wday_offset: if forward { WeekDayOffset::Next(w) } else { WeekDayOffset::Prev(w) }, day_offset: 0 }
+                } else {
+                    let n = 2 + i64::from(ch.draw(9));
+                    out.push_str(&format!(" {}{n} days", if forward { '+' } else { '-' }));
+                    DateOffset { wday_offset: WeekDayOffset::None, day_offset: if forward { n } else { -n } }
+                }
+            };
+            let start = gen_year_edge_date(ch, cfg, out, with_year, if crossing > 0 { Some(true) } else { None });
+            let start_off = match crossing {
+                1 => carried(ch, out, true),
+                2 => DateOffset::default(),
+                _ if ch.chance(50) => gen_date_offset(ch, cfg, out),
+                _ => DateOffset::default(),
+            };
+            out.push('-');
+            let end = gen_year_edge_date(ch, cfg, out, end_year, if crossing > 0 { Some(false) } else { None });
+            let end_off = match crossing {
+                2 => carried(ch, out, false),
+                1 => DateOffset::default(),
+                _ if ch.chance(50) => gen_date_offset(ch, cfg, out),
+                _ => DateOffset::default(),
+            };
+            MonthdayRange::Date { start: (start, start_off), end: (end, end_off) }
+        }
         // month or month range, optional year
         0 | 1 => {
             let year = if !cfg.canonical && ch.chance(20) { Some(gen_year(ch, cfg)) } else { None };
@@ -668,7 +731,15 @@ fn gen_monthday_range(ch: &mut Choices, cfg: &Cfg, out: &mut String) -> Monthday
         2 => {
             let with_year = ch.chance(25);
             let date = gen_date(ch, cfg, out, with_year);
-            let offset = if ch.chance(25) { gen_date_offset(ch, cfg, out) } else { DateOffset::default() };
+            let offset = if cfg.single_date_max_offset > 41 && ch.chance(8) {
+                let n = ch.int(41, cfg.single_date_max_offset) * if ch.chance(50) { -1 } else { 1 };
+                out.push_str(&format!(" {}{} days", if n < 0 { '-' } else { '+' }, n.abs()));
+                DateOffset { wday_offset: WeekDayOffset::None, day_offset: n }
+            } else if ch.chance(25) {
+                gen_date_offset(ch, cfg, out)
+            } else {
+                DateOffset::default()
+            };
             MonthdayRange::Date { start: (date, offset), end: (date, offset) }
         }
         // open ended `Jan 5+`
@@ -1028,7 +1099,21 @@ pub fn gen_rare_expr(ch: &mut Choices, year_hint: i32) -> String {
         let wd = wday_str(ch.pick(&WDAYS));
         let time = ch.pick(&["", "", " 10:00-12:00", " 20:00-26:00", " 00:00-24:00", " sunrise-sunset", " 00:00-48:00", " 00:00-30:00", " 24:00-48:00", " 12:00-12:00"]);
         let near_year = (year_hint + ch.int(0, 3) as i32).clamp(1900, 9999);
-        let body = match ch.draw(16) {
+        let edge = |ch: &mut Choices| -> String {
+            let date = if ch.chance(50) { format!("Dec {}", 20 + ch.draw(12)) } else { format!("Jan {}", 1 + ch.draw(10)) };
+            let off = match ch.weighted(&[40, 25, 25, 10]) {
+                0 => String::new(),
+                1 => format!("{}{}", ch.pick(&["+", "-"]), wday_str(ch.pick(&WDAYS))),
+                2 => format!(" {}{} days", ch.pick(&["+", "-"]), 2 + ch.draw(12)),
+                _ => format!("{}{} {}{} days", ch.pick(&["+", "-"]), wday_str(ch.pick(&WDAYS)), ch.pick(&["+", "-"]), 2 + ch.draw(9)),
+            };
+            format!("{date}{off}")
+        };
+        let body = match ch.draw(19) {
+            // ranges hugging the turn of the year, year-less or with a dated start
+            16 => format!("{}-{}", edge(ch), edge(ch)),
+            17 => format!("{near_year} {}-{}", edge(ch), edge(ch)),
+            18 => format!("{}-{}", edge(ch), format!("{} {}", month_str(ch.pick(&MONTHS)), 1 + ch.draw(28))),
             0 => "Feb 29".to_string(),
             1 => format!("Feb 29 {}", ch.pick(&["+1 day", "-1 day", "+2 days", "+7 days"])),
             2 => format!("Feb 29 {wd}"),
